@@ -1,10 +1,11 @@
 #!/bin/bash
 # evaluate every mutation a sub-agent left in /tmp/mut/<ID>/out against ./check <ID>
 id=$1
+prefix=${2:-}
 for d in /tmp/mut/$id/out/m*.diff; do
   [ -f "$d" ] || continue
   k=$(basename $d .diff)
-  out=/verif/seeded/$id/$k
+  out=/verif/seeded/$id/$prefix$k
   [ -f $out/eval.json ] && [ -z "$FORCE" ] && continue
   mkdir -p $out
   PYTHONPATH=/verif /venv/bin/python -m harness.seeded $id $d /tmp/mut/$id/out/${k}_demo.py $out > $out/eval.log 2>&1
